@@ -150,8 +150,20 @@ CHECKS["C01"] = {
             "numerical recovery of S, conditioning, the fill_* arithmetic of vnacal_apply or the saved error terms' values.",
     "note": "the matrix equation and sub-matrix shapes are transcribed from vnacal_layout.h; offsets and the unity position are read from the code on every run",
 }
+CHECKS["C14"] = {
+    "technique": "static writer/reader agreement of the YAML exporter and importer of property trees: constant folding of the importer's null predicate and "
+                 "the exporter's scalar-style decision over the finite set of spellings named by the predicate's own literals (clang AST, nothing executed); "
+                 "raw/quoted qualifier analysis of exported map keys against the importer's descriptor-parsing call; switch exhaustiveness over node kinds",
+    "text": "Decides only the decisions libvna itself makes on both sides of the file (libyaml resolves no tags): every spelling the importer takes for null as a plain "
+            "scalar is written in a quoted style when it is a string, and the importer does not take that quoted style for null; the text and style written for a null "
+            "node are accepted by the importer's null test; map keys are written in vnaproperty_quote_key form exactly because the importer parses keys as descriptors, "
+            "and the exporter's own look-ups use the quoted key; the exporter has a returning case for every node kind a tree can hold (and NULL) and the importer a case "
+            "for every libyaml node type the exporter creates. Does not decide libyaml's emitter/scanner behaviour (which bytes survive a given scalar style, "
+            "line folding, non-printable and multi-byte characters), list order, or the descriptor quoting grammar itself.",
+    "note": "libyaml's yaml_scalar_style_t / yaml_node_type_t values are transcribed from yaml.h; a predicate shape the constant folder does not understand is ANALYSIS-BROKEN, never a pass",
+    "design_ref": "DESIGN.md section 9.15",
+}
 NOT_APPLICABLE = {
-    "C14": "YAML fidelity of arbitrary scalars/keys depends on libyaml's emitter/scanner behaviour on run-time strings; no clause is visible in libvna's source shape (DESIGN.md section 3, C14)",
 }
 
 
